@@ -91,7 +91,7 @@ func init() {
 // ---- scripted agent
 
 type c16Msg struct {
-	M string `json:"m"` // hello | data | quit | eof
+	M string `json:"m"` // hello | data | quit | eof | disconnect (the agent goes away: last message)
 	K int    `json:"k"`
 	N int    `json:"n"`
 }
@@ -110,6 +110,7 @@ type c16Result struct {
 	Delivered map[string]string `json:"delivered"` // k -> hex of what the CURRENT generation's service read
 	Echoed    map[string]string `json:"echoed"`    // k -> hex of payloads received back tagged with k
 	EOFs      map[string]int    `json:"eofs"`      // k -> EOF messages received for k
+	Done      map[string]bool   `json:"done"`      // k -> the service of the latest announcement of k has seen the end of its stream and returned
 	Stray     []string          `json:"stray"`
 	Error     string            `json:"error,omitempty"`
 }
@@ -220,6 +221,7 @@ func c16Run(rig *agentRig, sc c16Scenario) c16Result {
 			mu.Unlock()
 		}
 	}()
+	gone := false
 	for i, m := range sc.Msgs {
 		la, ra := c16Addr(sc.ID, m.K)
 		switch m.M {
@@ -257,6 +259,10 @@ func c16Run(rig *agentRig, sc c16Scenario) c16Result {
 		case "eof":
 			frameWrite(cl, agent.TypeEOF, agent.EOF{Laddr: la, Raddr: ra})
 			time.Sleep(20 * time.Millisecond)
+		case "disconnect":
+			gone = true
+			time.Sleep(40 * time.Millisecond)
+			cl.Close()
 		}
 	}
 	time.Sleep(60 * time.Millisecond)
@@ -279,6 +285,41 @@ func c16Run(rig *agentRig, sc c16Scenario) c16Result {
 			}
 		}
 	}
+	lastRec := func(k int) *echoRecord {
+		_, ra := c16Addr(sc.ID, k)
+		want := ra.String()
+		var last *echoRecord
+		for _, r := range echoes.recs {
+			if r.Remote == want {
+				last = r
+			}
+		}
+		return last
+	}
+	if gone {
+		// the agent is gone: every service still attached must see the end of its stream - give them up to 2 s
+		for t0 := time.Now(); time.Since(t0) < 2*time.Second; time.Sleep(10 * time.Millisecond) {
+			all := true
+			echoes.mu.Lock()
+			for k := 1; k <= 9; k++ {
+				if r := lastRec(k); r != nil && !r.Done {
+					all = false
+				}
+			}
+			echoes.mu.Unlock()
+			if all {
+				break
+			}
+		}
+	}
+	res.Done = map[string]bool{}
+	echoes.mu.Lock()
+	for k := 1; k <= 9; k++ {
+		if r := lastRec(k); r != nil {
+			res.Done[fmt.Sprint(k)] = r.Done
+		}
+	}
+	echoes.mu.Unlock()
 	// what did the services read? the current generation = the last record for the tuple
 	for k := 1; k <= 9; k++ {
 		_, ra := c16Addr(sc.ID, k)
